@@ -116,6 +116,19 @@ CLAIMS.update({
         ref="3/C09"),
 })
 
+CLAIMS.update({
+    "C04": dict(
+        text="Static: panic-site ledger over every decoder function (all parse/decode* under mqtt::packet and everything they reach, ~100 functions): each MIR assert, unwrap, slice/array/str index, copy_from_slice and precondition met on some abstract path is discharged mechanically - constants and path constraints, linear entailment over path facts with the slicing algebra and callee post-conditions, type intervals, A-RL/A-MEM - or is one of 9 audited ledger entries; every decoder is proved to report consumed <= len(input); loops classified as terminating; UTF-8 typestate; every id-carrying parser rejects id 0 and PUBLISH rejects QoS 3. NOT decided: size()/re-parse equality of accepted non-canonical input, trailing bytes.",
+        note=TB + "Assumptions A-MEM (lengths < 2^56) and A-RL (inputs <= 268 435 455 bytes). Audited ledger entries are not re-proved when code near them changes; a new site or a lost mechanical discharge is reported.",
+        technique="panic-site enumeration from MIR + linear-inequality / interval discharge (no solver) + audited ledger",
+        ref="3/C04, 0.1"),
+    "C05": dict(
+        text="Static: the same panic-site ledger over the connection layer - every receive handler with builders and helpers inlined, the dispatcher, recv(), the framer with the cursor inlined, and (separately) the local API: failing or open asserts / unwraps / explicit panics on feasible abstract paths are discharged (incl. D4: automatic-response builders can only fail on a zero id and every parser rejects zero; D3p: property values the constructors forbid) or are audited ledger entries with the invariant they rest on; loops terminate; no received packet is swallowed (known finding F19); notify_closed re-opens. NOT decided: logical wedges that are not panics or loops.",
+        note=TB + "Assumptions A-MEM, A-RL, A-CALL (contract-respecting local calls). ~200 mechanical discharges, ~45 distinct audited sites (framer arithmetic, INV-PUB, INV-STORE, unreachable!()).",
+        technique="panic-site enumeration on abstract paths + mechanical discharge + audited ledger; no-swallow path rule",
+        ref="3/C05, 0.1"),
+})
+
 NOT_APPLICABLE = {
     "C20": "Refinement of a set model over all operation sequences plus the sorted/disjoint/merged representation invariant of a BTreeSet<ValueInterval> with a non-standard Ord: needs an inductive data-structure invariant no static abstract domain in reach expresses; a syntactic proxy would fire on behaviour-preserving rewrites. The out-of-range query clause is decided under C08-R5.",
 }
